@@ -66,6 +66,14 @@ def cross_file_trees():
         "net/server": [packet("Fam3", "Other", [field("h", "HTTPServerV2")])],
         "map": [], "pub": [], "pub/server": [],
     }))
+    # 5: a protocol.xml at the root of the tree (its types are re-exported by eolib.protocol itself)
+    out.append(("root-file", {
+        "": [struct("RootCoords", [field("x", "char"), field("y", "char")]), enum("RootDirection", "char", [("Down", 0), ("Up", 1)]),
+             struct("BigRoot", [field("x", "short"), field("d", "RootDirection")])],
+        "net": [struct("UsesRoot", [field("at", "RootCoords")])],
+        "net/client": [packet("Fam1", "Act", [field("u", "UsesRoot")])],
+        "net/server": [], "map": [struct("MapUsesRoot", [array("cs", "RootCoords")])], "pub": [], "pub/server": [],
+    }))
     return out
 
 
